@@ -1,6 +1,7 @@
 package inject
 
 import (
+	"context"
 	"sync"
 	"time"
 
@@ -31,6 +32,7 @@ type RecLimit struct {
 	listeners []core.LimitChangeListener
 	Clock     func() int64 // optional logical clock
 	OnEnter   func()       // optional schedule point at OnSample entry (called without the lock)
+	OnEstimate func()      // optional schedule point inside EstimatedLimit (the limiter reads the estimate right before SetLimit)
 }
 
 // NewScriptedLimit returns a RecLimit whose estimate after the n-th sample (1-based) is script(n).
@@ -43,6 +45,9 @@ func NewWrappedLimit(inner core.Limit) *RecLimit { return &RecLimit{inner: inner
 
 // EstimatedLimit implements core.Limit.
 func (l *RecLimit) EstimatedLimit() int {
+	if l.OnEstimate != nil {
+		l.OnEstimate()
+	}
 	if l.inner != nil {
 		return l.inner.EstimatedLimit()
 	}
@@ -121,4 +126,24 @@ func (l *RecLimit) Last() (RecSample, bool) {
 		return RecSample{}, false
 	}
 	return l.samples[len(l.samples)-1], true
+}
+
+// YieldStrategy wraps a core.Strategy and announces SetLimit before delegating: a schedule point between the
+// limiter's reading of the estimate and the strategy update (which correct code keeps under the limiter lock).
+type YieldStrategy struct {
+	Inner          core.Strategy
+	BeforeSetLimit func(limit int)
+}
+
+// TryAcquire implements core.Strategy.
+func (y *YieldStrategy) TryAcquire(ctx context.Context) (core.StrategyToken, bool) {
+	return y.Inner.TryAcquire(ctx)
+}
+
+// SetLimit implements core.Strategy.
+func (y *YieldStrategy) SetLimit(limit int) {
+	if y.BeforeSetLimit != nil {
+		y.BeforeSetLimit(limit)
+	}
+	y.Inner.SetLimit(limit)
 }
